@@ -145,6 +145,88 @@ theorem fourteen_gated_modules :
     (gatedModules.filter (fun p => p.1 == p.2 && p.2 != [102, 112, 100, 101, 99])).length = 14 := by
   decide +kernel
 
+/-! ### enabling further features never changes what already-available code computes
+
+`Gen.Features.cfgSites` is the regenerated inventory of EVERY place where conditional compilation
+enters the library build (`src/*.rs`, `qty-macros/src/*.rs`; `#[cfg(test)]` items excluded). -/
+
+def fpdecName : Text := [102, 112, 100, 101, 99]
+def stdName : Text := [115, 116, 100]
+def serdeName : Text := [115, 101, 114, 100, 101]
+def serdeDerives : Text := Text.ofString "attr:derive ( : : serde : : Deserialize , : : serde : : Serialize )"
+
+/-- what a site of conditional compilation may look like: a module declaration or a re-export
+(which names EXIST — the subject of `imports_closed_all`, not of results), the crate-level
+`cfg_attr(not(feature = "std"), no_std)`, the serde derives under `feature = "serde"` (they only ADD
+impls), or code whose predicate mentions no feature other than the amount-type selector `fpdec` -/
+def siteOk (what : Text) (c : Cfg) : Bool :=
+  if what == Text.ofString "mod" || what == Text.ofString "use" then true
+  else if what == Text.ofString "attr:no_std" then cfgFeats c == [stdName]
+  else if what == serdeDerives then cfgFeats c == [serdeName]
+  else (cfgFeats c).all (· == fpdecName)
+
+/-- every site in the current source is of one of these kinds: no function body, impl, statement or
+expression is compiled differently depending on a quantity feature, `std` or `serde` -/
+theorem code_depends_on_fpdec_only :
+    Gen.Features.cfgSites.all (fun s => siteOk s.2.1 s.2.2) = true := by
+  decide +kernel
+
+mutual
+/-- a predicate that mentions only `fpdec` evaluates the same under any two feature sets that agree on `fpdec` -/
+theorem cfgEval_congr (f1 f2 : List Text) (w : Text) (h : f1.contains fpdecName = f2.contains fpdecName) :
+    ∀ c : Cfg, (cfgFeats c).all (· == fpdecName) = true → cfgEval f1 w c = cfgEval f2 w c
+  | .feature n, hc => by
+    simp only [cfgFeats, List.all_cons, List.all_nil, Bool.and_true, beq_iff_eq] at hc
+    subst hc; simpa [cfgEval] using h
+  | .kv _ _, _ => by simp [cfgEval]
+  | .flag _, _ => by simp [cfgEval]
+  | .not c, hc => by
+    simp only [cfgEval]; rw [cfgEval_congr f1 f2 w h c (by simpa [cfgFeats] using hc)]
+  | .all cs, hc => by
+    simp only [cfgEval]; exact cfgAll_congr f1 f2 w h cs (by simpa [cfgFeats] using hc)
+  | .any cs, hc => by
+    simp only [cfgEval]; exact cfgAny_congr f1 f2 w h cs (by simpa [cfgFeats] using hc)
+theorem cfgAll_congr (f1 f2 : List Text) (w : Text) (h : f1.contains fpdecName = f2.contains fpdecName) :
+    ∀ cs : List Cfg, (cfgFeatsL cs).all (· == fpdecName) = true → cfgAll f1 w cs = cfgAll f2 w cs
+  | [], _ => rfl
+  | c :: cs, hc => by
+    simp only [cfgFeatsL, List.all_append, Bool.and_eq_true] at hc
+    simp only [cfgAll]
+    rw [cfgEval_congr f1 f2 w h c hc.1, cfgAll_congr f1 f2 w h cs hc.2]
+theorem cfgAny_congr (f1 f2 : List Text) (w : Text) (h : f1.contains fpdecName = f2.contains fpdecName) :
+    ∀ cs : List Cfg, (cfgFeatsL cs).all (· == fpdecName) = true → cfgAny f1 w cs = cfgAny f2 w cs
+  | [], _ => rfl
+  | c :: cs, hc => by
+    simp only [cfgFeatsL, List.all_append, Bool.and_eq_true] at hc
+    simp only [cfgAny]
+    rw [cfgEval_congr f1 f2 w h c hc.1, cfgAny_congr f1 f2 w h cs hc.2]
+end
+
+/-- FOR ALL pairs of feature sets that select the same amount type: every site that gates CODE (not a
+module declaration, a re-export, `no_std` or the serde derives) is compiled the same way under both —
+so enabling additional features leaves the code of the already-available operations unchanged -/
+theorem results_feature_independent (f1 f2 : List Text) (w : Text)
+    (h : f1.contains fpdecName = f2.contains fpdecName)
+    (file what : Text) (c : Cfg) (hs : (file, what, c) ∈ Gen.Features.cfgSites)
+    (hcode : what ≠ Text.ofString "mod" ∧ what ≠ Text.ofString "use" ∧
+             what ≠ Text.ofString "attr:no_std" ∧ what ≠ serdeDerives) :
+    cfgEval f1 w c = cfgEval f2 w c := by
+  have hall := code_depends_on_fpdec_only
+  rw [List.all_eq_true] at hall
+  have hsite := hall _ hs
+  simp only [siteOk] at hsite
+  obtain ⟨h1, h2, h3, h4⟩ := hcode
+  have e1 : (what == Text.ofString "mod" || what == Text.ofString "use") = false := by
+    simp [h1, h2]
+  have e3 : (what == Text.ofString "attr:no_std") = false := by simp [h3]
+  have e4 : (what == serdeDerives) = false := by simp [h4]
+  rw [e1, e3, e4] at hsite
+  simp only [Bool.false_eq_true, if_false] at hsite
+  exact cfgEval_congr f1 f2 w h c hsite
+
+/-- non-vacuity: there ARE sites that gate code (the two `fpdec` branches of `Quantity::fmt`) -/
+example : (Gen.Features.cfgSites.filter (fun s => s.2.1 == Text.ofString "code")).length = 2 := by decide +kernel
+
 /-- non-vacuity: `energy` pulls in force, mass, acceleration, speed, length, duration -/
 example : (closure tbl [Text.ofString "energy"]).length = 7 := by decide +kernel
 
